@@ -7,6 +7,8 @@
 static int ksi_CalendarHashChain_verifyRightLinkCompatibility(const KSI_CalendarHashChain* a, const KSI_CalendarHashChain* b)
 __CPROVER_requires(g_c8.a_calls == 0 && g_c8.b_calls == 0 && g_c8_atokp != g_c8_btokp && g_c8_atokp != NULL && g_c8_btokp != NULL &&
 		g_c8.rl.a_right == 0 && g_c8.rl.b_right == 0 && g_c8.rl.compared == 0 && g_c8.rl.unequal == 0)
+/* (argument record: the enforcing harness presets it, a replaced call sets it) */
+__CPROVER_ensures(g_c8_arg_a == (const void *)a && g_c8_arg_b == (const void *)b)
 __CPROVER_ensures(IMPLIES(a == NULL || b == NULL, __CPROVER_return_value == KSI_INVALID_ARGUMENT))
 __CPROVER_ensures(IMPLIES(a != NULL && b != NULL,
 		__CPROVER_return_value == KSI_OK || __CPROVER_return_value == KSI_INCOMPATIBLE_HASH_CHAIN))
@@ -16,4 +18,32 @@ __CPROVER_ensures(IMPLIES(__CPROVER_return_value == KSI_INCOMPATIBLE_HASH_CHAIN,
 		g_c8.rl.unequal ||
 		(g_c8.b_calls == g_c8_b_len && g_c8.rl.a_right > g_c8.rl.b_right) ||
 		g_c8.rl.b_right > g_c8.rl.a_right))
-__CPROVER_assigns(g_c8, g_c8_alink, g_c8_blink);
+__CPROVER_assigns(g_c8, g_c8_alink, g_c8_blink, g_c8_arg_a, g_c8_arg_b);
+
+/* KSI_CalendarHashChain_verifyCompatibilityTo (public) with the two loop-free helpers inlined and the right-link
+ * helper replaced by the contract above:
+ *   OK <=> both chains present ∧ their aggregation times (field, or the publication time when the field is absent)
+ *          are defined and equal ∧ the input hashes are equal ∧ the right links are compatible.
+ * The three checks are made in this order; a failing check ends the comparison. */
+#define C08_EFF(h) ((h)->aggregationTime != NULL ? (h)->aggregationTime : (h)->publicationTime)
+#define C08_TIMES_DEFINED(a, b) (C08_EFF(a) != NULL && C08_EFF(b) != NULL)
+#define C08_TIMES_EQ(a, b) (C08_TIMES_DEFINED(a, b) && C08_EFF(a)->value == C08_EFF(b)->value)
+#define C08_RL_OK (g_c8.a_calls == g_c8_a_len && g_c8.b_calls == g_c8_b_len && spec_rl_compatible(&g_c8.rl))
+int KSI_CalendarHashChain_verifyCompatibilityTo(const KSI_CalendarHashChain *a, const KSI_CalendarHashChain *b)
+__CPROVER_requires(g_c8.a_calls == 0 && g_c8.b_calls == 0 && g_c8_atokp != g_c8_btokp && g_c8_atokp != NULL && g_c8_btokp != NULL &&
+		g_c8.rl.a_right == 0 && g_c8.rl.b_right == 0 && g_c8.rl.compared == 0 && g_c8.rl.unequal == 0 && g_c8_in_eq_calls == 0)
+__CPROVER_requires(a == NULL || a->inputHash == g_c8_in_a)
+__CPROVER_requires(b == NULL || b->inputHash == g_c8_in_b)
+__CPROVER_ensures(IFF(__CPROVER_return_value == KSI_OK,
+		a != NULL && b != NULL && C08_TIMES_EQ(a, b) && g_c8_in_eq_calls == 1 && g_c8_in_eq && C08_RL_OK &&
+		g_c8_arg_a == (const void *)a && g_c8_arg_b == (const void *)b))
+__CPROVER_ensures(IMPLIES(a == NULL || b == NULL, __CPROVER_return_value == KSI_INVALID_ARGUMENT))
+__CPROVER_ensures(IMPLIES(a != NULL && b != NULL && !C08_TIMES_DEFINED(a, b), __CPROVER_return_value == KSI_INVALID_STATE && g_c8_in_eq_calls == 0))
+__CPROVER_ensures(IMPLIES(a != NULL && b != NULL && C08_TIMES_DEFINED(a, b) && !C08_TIMES_EQ(a, b),
+		__CPROVER_return_value == KSI_INCOMPATIBLE_HASH_CHAIN && g_c8_in_eq_calls == 0 && g_c8.a_calls == 0 && g_c8.b_calls == 0))
+__CPROVER_ensures(IMPLIES(a != NULL && b != NULL && C08_TIMES_EQ(a, b), g_c8_in_eq_calls == 1))
+__CPROVER_ensures(IMPLIES(a != NULL && b != NULL && C08_TIMES_EQ(a, b) && !g_c8_in_eq,
+		__CPROVER_return_value == KSI_INCOMPATIBLE_HASH_CHAIN && g_c8.a_calls == 0 && g_c8.b_calls == 0))
+__CPROVER_ensures(IMPLIES(a != NULL && b != NULL && C08_TIMES_EQ(a, b) && g_c8_in_eq && !C08_RL_OK,
+		__CPROVER_return_value == KSI_INCOMPATIBLE_HASH_CHAIN))
+__CPROVER_assigns(g_c8, g_c8_alink, g_c8_blink, g_c8_arg_a, g_c8_arg_b, g_c8_in_eq_calls, g_c8_in_eq);
